@@ -215,11 +215,45 @@ THREADSETS = {
 }
 
 
+def _updater_parts(cf):
+    """(updater thread, its request queue, its reply lock) of a connected Crazyflie - looked up by type where the usual
+    name is gone (None for what cannot be identified; the clauses that need it are then not judged)."""
+    import threading
+    par = cf.param
+    upd = getattr(par, 'param_updater', None)
+    if upd is None:
+        n = cfh.find_attr(par, (), lambda v: isinstance(v, threading.Thread))
+        upd = getattr(par, n) if n else None
+    if upd is None:
+        return None, None, None
+    qn = cfh.find_attr(upd, ('request_queue',), lambda v: isinstance(v, vsched.VQueue))
+    ln = cfh.find_attr(upd, ('wait_lock',), lambda v: isinstance(v, (vsched.VLock, vsched.VRLock, vsched.VSemaphore)))
+    return upd, (getattr(upd, qn) if qn else None), (getattr(upd, ln) if ln else None)
+
+
+def _updater_functions():
+    """run() and the reply handler of the parameter updater thread class (by name, else: every method of the Thread
+    subclasses of the parameter module)."""
+    import threading
+    import cflib.crazyflie.param as pm
+    cls = getattr(pm, '_ParamUpdater', None)
+    if cls is not None and hasattr(cls, 'run') and hasattr(cls, '_new_packet_cb'):
+        return [cls.run, cls._new_packet_cb]
+    ths = [v for v in vars(pm).values() if isinstance(v, type) and issubclass(v, threading.Thread)
+           and v.__module__ == pm.__name__]
+    return cfh.functions_of(*ths, skip=('__init__',))
+
+
 def exec_c04(cfg, devs):
     from cflib.crazyflie import Crazyflie
     p = Partial()
     dev = _device_b()
     menu = ('once', 'delay0.3')
+    vsched.clear_traced_functions()
+    if cfg.get('lines'):
+        # line-level scheduling points inside the updater thread's send step and the reply handler (the attribute they
+        # share, the awaited-reply pattern, is written by both without a lock)
+        vsched.trace_functions(_updater_functions())
     ex = cfh.Exec(devs, dev, time_limit=40.0, reply_menu=menu, needs_resending=True, policy=cfg.get('policy'))
     ex.env.on_tx = lambda idx, h, data, st: ex.log('tx', h, bytes(data)) if (
         (h >> 4) == 2 and (h & 3) != 0 and info.get('armed')) else None
@@ -239,14 +273,16 @@ def exec_c04(cfg, devs):
         info['armed'] = True
         cf.packet_received.add_callback(lambda pk: ex.log('processed', pk.header, bytes(pk.data)) if (
             pk.port == 2 and pk.channel != 0) else None)
-        q = cf.param.param_updater.request_queue
+        updater, q, wl = _updater_parts(cf)
+        info['no_queue'] = q is None
 
         class _LogList(list):
             # the order in which requests enter the queue, observed at the append itself
             def append(self_, item):
                 ex.log('put', item.header, bytes(item.data))
                 list.append(self_, item)
-        q.queue = _LogList(q.queue)
+        if q is not None:
+            q.queue = _LogList(q.queue)
         upd = []
         cf.param.add_update_callback(cb=lambda name, val: (upd.append((name, val)), ex.log('update', name, val)))
         info['upd'] = upd
@@ -298,8 +334,8 @@ def exec_c04(cfg, devs):
         s.sleep(cfg.get('settle', 2.5), 'settle')
         ex.freeze()
         info['values'] = {g: dict(v) for g, v in cf.param.values.items()}
-        info['wait_lock'] = cf.param.param_updater.wait_lock.locked()
-        info['queue_len'] = cf.param.param_updater.request_queue.qsize()
+        info['wait_lock'] = wl.locked() if wl is not None else None
+        info['queue_len'] = q.qsize() if q is not None else None
         info['users_done'] = [t.state == vsched.DONE for t in s.threads if t.name.startswith('user')]
         cf.close_link()
 
@@ -353,22 +389,32 @@ def _judge(p, cfg, devs, ex, info, dev, threads):
     for k in first_tx:
         if not wire or wire[-1] != k:
             wire.append(k)
-    if [(h & 0xf3, d) for h, d in wire] != [(h & 0xf3, d) for h, d in puts]:
+    if not info.get('no_queue') and [(h & 0xf3, d) for h, d in wire] != [(h & 0xf3, d) for h, d in puts]:
         viol('wire_order', 'requests were queued in order %r but went on the wire as %r' % (
             [d.hex() for _, d in puts], [d.hex() for _, d in wire]))
     # each request answered (a matching reply processed) before the next new request is first transmitted
-    pending = None          # (header, data) of the request in flight
+    pending = None          # [(header, data) of the request in flight, answered?, a stale duplicate for its pattern exists?]
+    retransmitted = []      # release patterns of earlier requests that were transmitted twice (a duplicate answer exists)
+    prev_tx = None
+
+    def _pattern(k):
+        return bytes(k[1][:3]) if (k[0] & 3) == 3 else bytes(k[1][:2])
     for e in ev:
         if e[1] == 'tx':
             k = (e[2] & 0xf3, e[3])
+            if prev_tx == k:
+                retransmitted.append(_pattern(k))
+            prev_tx = k
             if pending is not None and k != pending[0]:
                 if not pending[1]:
-                    viol('next_sent_before_answer', 'request %s transmitted while %s was still unanswered' % (
-                        e[3].hex(), pending[0][1].hex()))
+                    # the duplicate answer to an earlier, retransmitted request about the same parameter is taken for the
+                    # answer to this one (known finding: the protocol has no request identity)
+                    viol('next_sent_before_answer' + (':after_retransmission_same_parameter' if pending[2] else ''),
+                         'request %s transmitted while %s was still unanswered' % (e[3].hex(), pending[0][1].hex()))
                     break
-                pending = [k, False]
+                pending = [k, False, _pattern(k) in retransmitted]
             elif pending is None:
-                pending = [k, False]
+                pending = [k, False, _pattern(k) in retransmitted]
         elif e[1] == 'processed' and pending is not None:
             hdr, data = e[2] & 0xf3, e[3]
             req_h, req_d = pending[0]
@@ -504,6 +550,12 @@ def configs(quick):
     return out
 
 
+def _focus_filter(devs, i, alt, label):
+    if not devs:
+        return label.startswith('reply:p2') and alt == 1
+    return label.startswith('L:run:') or label in ('lock.release', 'link.rx')
+
+
 def run(ck):
     cfh.setup()
     ck.rule = ('A: 10 firmware types x {protocol 10 (V2 ids), 3 (V1 ids)} x value alphabet (type min/max, one beyond, -1, 0, 1, '
@@ -520,9 +572,24 @@ def run(ck):
     r = explore(ck, exec_c04, cs, 1)
     ck.note('schedule_exploration_one_deviation', r)
     deep = [dict(c, name=c['name'] + ':2dev') for c in cs if (not ck.quick) or c['name'] in ('getstate2', 'set+set_same')]
+    if not ck.quick:
+        deep.append({'name': 'set+set_same:lines:handoff:2dev', 'threads': 'set+set_same', 'lines': True, 'policy': 'handoff'})
+    if not ck.quick:
+        deep.append({'name': 'set+read:lines:2dev', 'threads': 'set+read', 'lines': True})
+        deep.append({'name': 'getstate2:lines:2dev', 'threads': 'getstate2', 'lines': True})
     r2 = explore(ck, exec_c04, deep, 2, max_execs=2500000)
     ck.note('schedule_exploration_two_deviations', r2)
     ck.note('two_deviation_configurations', [c['name'] for c in deep])
+    # focused three-deviation search: one parameter reply delayed past the retry (so that a stale duplicate exists), then
+    # two thread switches confined to the hand-over between the reply handler and the updater's send step (the lines that
+    # write and re-read the awaited pattern, the lock release, the arrival of a packet)
+    focus = [{'name': 'set+set_same:lines:focus3', 'threads': 'set+set_same', 'lines': True},
+             {'name': 'set+set_diff:lines:focus3', 'threads': 'set+set_diff', 'lines': True}]
+    if not ck.quick:
+        focus.append({'name': 'set+read:lines:focus3', 'threads': 'set+read', 'lines': True})
+        focus.append({'name': 'getstate2:lines:focus3', 'threads': 'getstate2', 'lines': True})
+    r3 = explore(ck, exec_c04, focus, 3, child_filter=_focus_filter, max_execs=2500000)
+    ck.note('focused_three_deviations', r3)
     ck.exhaustive = True
 
 
